@@ -13,6 +13,12 @@ const P_GLOBALS: &str = "struct S0 { uint m; float4 v; };\nTexture2D<float4> t0;
 
 const P_TEMPLATES: &str = "template<typename T, typename U> T pick(T a, U b) { return a; }\nenum Q { QA, QB, QC, QD, QE, QF };\nfloat t0() { return pick<float, int>(1.0f, 2) + pick<int, float>(1, 2.0f) + pick<float, uint>(1.0f, 2u) + (float)(int)QC; }\n";
 
+// literals of every type with whole, fractional and extreme values, each used in an expression of its type
+const P_LITERALS: &str = "half lh(half x) { half one = 1.0h; return x * 2.0h + 0.5h + one + 65504.0h + 0.0h - 3.0h; }\nfloat lf(float x) { float one = 1.0f; return x * 2.0f + 0.5f + one + 16777216.0f + 1e10f - 3.0f + 1.5e-3f; }\ndouble ld(double x) { double one = 1.0L; return x * 2.0L + 0.5L + one + 1e300L; }\nint li(int x) { return x * 2 + 2147483647 - 1 + 0 + (-5); }\nuint lu(uint x) { return x * 2u + 4294967295u + 0u; }\nbool lb(bool x) { return x && true || false; }\nhalf3 lhv(half3 v) { return v * half3(1.0h, 2.0h, 0.25h) + 4.0h; }\nfloat run() { return (float)lh(1.0h) + lf(2.0f) + (float)ld(3.0L) + (float)li(4) + (float)lu(5u) + (lb(true) ? 1.0f : 0.0f) + (float)lhv(half3(1.0h, 1.0h, 1.0h)).x; }\n";
+
+// a comma expression, a conditional and an assignment in every position an expression can stand in
+const P_POSITIONS: &str = "int two(int a, int b) { return a + b; }\nint pos(int x) {\n    int y = (x, x + 1);\n    int z[2] = { (x, y), (y = 3) };\n    int w = x ? y : 2, v = (x, 4);\n    int a[3];\n    a[(x, 1)] = two((x, y), (y, x));\n    a[x ? 0 : 2] = (x = 2, x);\n    for (int i = (x, 0), j = 1; (i < 2, j < 3); i++, j += (x, 1)) { w += (i, j); }\n    if ((x, y) > 0) { v = (w, v); }\n    while ((x--, x > 0)) { w++; }\n    switch ((x, y)) { case 1: w = (1, 2); break; default: break; }\n    return (w, v + a[1] + z[0]);\n}\n";
+
 const P_ERR_A: &str = "namespace A { int v; }\nnamespace B { int v; }\nvoid f() { int x = A::v + B::w; }\n";
 // diagnostics computed from the values of an enum (kept in a hash map while the enum is open): a range no type holds,
 // a repeated value name, values after a value that is out of range
@@ -27,7 +33,7 @@ const P_LAYOUT: &str = "struct Particle { float3 position; float life; float3 ve
 fn sources() -> Vec<(String, String)> {
     let mut v: Vec<(String, String)> = vec![
         ("names".into(), P_NAMES.into()), ("groups".into(), P_GROUPS.into()), ("globals".into(), P_GLOBALS.into()),
-        ("templates".into(), P_TEMPLATES.into()), ("err-a".into(), P_ERR_A.into()), ("err-b".into(), P_ERR_B.into()), ("layout".into(), P_LAYOUT.into()), ("err-enum".into(), P_ERR_ENUM.into()), ("err-enum2".into(), P_ERR_ENUM2.into()),
+        ("templates".into(), P_TEMPLATES.into()), ("err-a".into(), P_ERR_A.into()), ("err-b".into(), P_ERR_B.into()), ("layout".into(), P_LAYOUT.into()), ("err-enum".into(), P_ERR_ENUM.into()), ("err-enum2".into(), P_ERR_ENUM2.into()), ("literals".into(), P_LITERALS.into()), ("positions".into(), P_POSITIONS.into()),
     ];
     let root = std::env::var("RSSL_REPO").unwrap_or("/repo".into());
     for dir in ["tests/basic", "hlsl/tests", "msl/tests"] {
